@@ -63,7 +63,7 @@ PROPS = {
     ),
     'C17': dict(
         title='The constant folder only reports values the interpreter would compute',
-        verus=['folder', 'fold', 'val_ops'], kani=['c17_'],
+        verus=['folder', 'fold', 'val_ops', 'poetic'], kani=['c17_'],
         technique=V + ' (tools.rs folder methods for arbitrary subtrees: left fold, accumulator on the left, first error wins, '
                       'only + - * / and unary minus fold, never identifiers/pronouns/subscripts/pops) + ' + K +
                   ' (NumericConstant operators = IEEE operation bit for bit, same as Val::plus/... )',
@@ -77,7 +77,7 @@ PROPS = {
     ),
     'C01': dict(
         title='Lexing and parsing are total',
-        verus=['lexer', 'tables', 'parser_core', 'parser_stmts', 'parser_exprs'], kani=['c01_'],
+        verus=['lexer', 'tables', 'parser_core', 'parser_stmts', 'parser_exprs', 'parser_poetic'], kani=['c01_'],
         technique=V + ' — PARTIAL: slicing preconditions (valid char-boundary slice = no out-of-bounds read in debug or '
                       'release) and u32 column arithmetic of the lexer primitives; every get_*_operator(..).unwrap() token '
                       'list extracted from parser.rs call sites proved total; parser token primitives, statement dispatch and '
@@ -90,7 +90,7 @@ PROPS = {
     ),
     'C02': dict(
         title='Every spelling of a program parses to the same syntax tree',
-        verus=['tables', 'parser_stmts', 'parser_core', 'parser_exprs'], kani=[],
+        verus=['tables', 'parser_stmts', 'parser_core', 'parser_exprs', 'parser_poetic'], kani=[],
         technique=V + ' — PARTIAL: get_unary/binary/mutation_operator, get_rounding_direction, is_literal_word, Block::new '
                       'against reference tables; statement level of the grammar: the dispatch table (starting token -> statement '
                       'kind) and each statement parser against the sequence of sub-parser calls, required and optional words and '
@@ -104,7 +104,7 @@ PROPS = {
     'C09': dict(
         title='Running any parseable program never crashes the interpreter',
         verus=['val_ops', 'val_arrays', 'val_mut', 'fold', 'produce', 'exec_flow', 'exec_glue', 'exec_io', 'env', 'call', 'folder',
-               'linter', 'boring', 'visit_runner'],
+               'linter', 'boring', 'visit_runner', 'poetic'],
         kani=['c09_'],
         panic_site_files=['src/exec/write_val.rs', 'src/exec/val.rs', 'src/exec/produce_val.rs', 'src/exec/exec_stmt.rs',
                           'src/exec/sym_table.rs', 'src/exec/environment.rs', 'src/frontend/ast.rs', 'src/exec/display.rs',
@@ -118,11 +118,15 @@ PROPS = {
     ),
     'C11': dict(
         title='Poetic literals denote the number or string their words spell',
-        verus=['tables'], kani=['c11_'],
-        technique='PARTIAL: Kani bounded harness for PoeticNumberLiteral::word_len (all valid UTF-8 strings of <= 4 bytes, '
-                  'labelled bounded) + Verus is_literal_word (the literal-vs-expression decision table). compute_value, '
-                  'the parser side and poetic strings are not decided',
-        level_note='partial and mostly bounded: see DESIGN.md §5 C11',
+        verus=['tables', 'poetic', 'parser_poetic'], kani=['c11_'],
+        technique=V + ' — PARTIAL: ast.rs: grouping of literal elements into digits (a word with ALL suffixes that follow it is one '
+                      'digit; orphan suffixes; PoeticNumberLiteralIterator::next / greedily_match_suffixes, unbounded), the per-digit '
+                      'term of compute_value ((sum of word lengths) mod 10 times 10^(exponent - index), closure body extracted; f64 '
+                      'uninterpreted); parser.rs: literal-vs-expression decision of the right-hand side, tokens admitted into a '
+                      'literal, element produced per token incl. hyphen joining, no leading hyphen / empty literal. + Kani bounded '
+                      'harness for word_len (valid UTF-8 of <= 2 bytes, labelled bounded). Not decided: the iterator chain of '
+                      'compute_value around the term (position of the period, enumerate, sum), float rounding, poetic strings',
+        level_note='partial: see DESIGN.md §10.3b; word_len only bounded',
     ),
     'C12': dict(
         title='Tokens carry their exact spelling and true source position',
